@@ -22,7 +22,7 @@ def cmap_lines(r, n):
     alpha = LETTERS[:8] + [0x20, 0xC4, 0x2020, 0x1F600, 0xF041, 0xE9]
     lines = []
     for _ in range(n):
-        rec = P.rand_recipe(r, alpha)
+        rec = P.rand_recipe(r, alpha, outlines=True)
         ft = P.font_tokens(rec)
         cps = alpha + [0, 0x7F, 0x80, 0xFF, 0x100, 0xF000, 0xF0FF, 0xFFFF, 0x10000, 0x10FFFF, 0x100C4, r.below(0x110000)]
         lines.append(f"pl cmap {ft} {','.join(map(str, cps))}")
@@ -116,7 +116,11 @@ def fb_recipe(rec):
     r = dict(num_glyphs=rec["ng"], upem=rec["upem"], ascender=rec["asc"], descender=rec["desc"],
              advances=rec["hadv"],
              cmap_subtables=[dict(platform=p, encoding=e, format=fmt, map=dict(pairs)) for p, e, fmt, pairs in rec["subs"]])
-    if rec["vadv"] is not None: r["vadvances"] = rec["vadv"]
+    if rec["vadv"] is not None:
+        r["vadvances"] = rec["vadv"]
+        if rec.get("vsb"): r["tsbs"] = rec["vsb"]
+    if rec.get("bbox") is not None:
+        r["extents"] = {g: list(bb) for g, bb in rec["bbox"].items()}
     if rec["vorg"] is not None: r["vorg"] = {"default": rec["vorg"][0], "glyphs": rec["vorg"][1]}
     return r
 
@@ -147,8 +151,18 @@ def py_font(rec, sem=None):
     def hadv(g): return metric(rec["hadv"], g) if rec["hadv"] is not None else rec["upem"]
     def vadv(g): return -(metric(rec["vadv"], g)) if rec["vadv"] is not None else -(rec["asc"] - rec["desc"])
     def vorg(g):
-        if rec["vorg"] is None: return rec["asc"]
-        d, recs = rec["vorg"]; return recs.get(g, d)
+        # VORG; else, for an outline font, from the glyph's bounding box: with vmtx top = yMax + top side bearing, without
+        # it the box is centred in the line (ascender - descender), rounding DOWN; else the ascender
+        if rec["vorg"] is not None:
+            d, recs = rec["vorg"]; return recs.get(g, d)
+        if rec.get("bbox") is not None and g <= 0xFFFF:
+            bb = rec["bbox"].get(g) if g < ng else None
+            ymax, height = (bb[3], bb[1] - bb[3]) if bb is not None else (0, 0)
+            if rec["vadv"] is not None:
+                vsb = rec.get("vsb") or []
+                return ymax + (vsb[g] if g < len(vsb) and g < max(len(rec["vadv"]), ng) else 0)
+            return ymax + ((rec["asc"] - rec["desc"]) + height) // 2
+        return rec["asc"]
     return nominal, hadv, vadv, vorg
 
 
@@ -156,7 +170,7 @@ def default_search(ctx, shim, chars, r, n):
     letters = [c for c in LETTERS if chars.in_scope(c)]
     lines, exp = [], []
     for _ in range(n):
-        rec = P.rand_recipe(r, letters, allow_mac=False, allow_symbol=r.chance(1, 6))
+        rec = P.rand_recipe(r, letters, allow_mac=False, allow_symbol=r.chance(1, 6), outlines=True)
         # every other font is serialised by the shared tools/fontbuild.py instead of this core's own builder
         use_fb = r.chance(1, 2)
         if use_fb:
@@ -191,7 +205,7 @@ def default_search(ctx, shim, chars, r, n):
                            "expected": [list(x) for x in want]})
             break
     ctx.note_search("default-metrics", len(lines), len(set(lines)),
-                    rule="shape() on generated cmap/hmtx(/vmtx/VORG) fonts, letters and digits that have glyphs, 4 "
+                    rule="shape() on generated cmap/hmtx(/vmtx/VORG/glyf bounding boxes) fonts, letters and digits that have glyphs, 4 "
                          "directions; expected = cmap glyph, input cluster, hmtx advance / -(vmtx or asc-desc), offsets "
                          "0 / (-hadv/2, -origin), reversed for RTL and BTT — computed from the recipe in python")
 
@@ -281,7 +295,7 @@ def run(ctx):
         "C16_axis is proved for the steps the model has (position_default, fallback spaces, mark zeroing, default-"
         "ignorable zeroing, reversal, hiding); value records, kerning, tracking, cursive and stch are other cores' "
         "models — for those the axis / 16-bit monitors run on the implementation over the repository corpus",
-        "glyph_v_origin is modelled for fonts without outlines (VORG, else ascender); variable-font advances, "
+        "glyph_v_origin is modelled for VORG, glyf bounding boxes (with and without vmtx) and the ascender fallback; CFF / bitmap / COLR extents, variable-font advances, "
         "kerx, fallback mark positioning with extents are not modelled",
     ]
     ctx.regen()
